@@ -185,7 +185,8 @@ pub fn draw_plan(prop: &str, index: u64, r: &mut Rng, thorough: bool) -> RunPlan
             } else {
                 &[0, 1, 2, 3, 7, 8, 9, 15, 16, 17, 31, 33, 63, 64, 65, 127, 128, 129, 255, 257, 511, 513, 1023, 1025, 2047, 4095, 4097, 8191, 16383, 16385, 32767, 65537]
             };
-            let n = *r.pick(sizes);
+            // boundary sizes most of the time, any size in between otherwise
+            let n = if r.chance(2, 3) { *r.pick(sizes) } else { r.range(0, if thorough { 300_000 } else { 20_000 }) as usize };
             let order = r.below(3) as u8;
             let churn = r.chance(1, 3);
             c.universe = (2 * n as i32 + 8).max(16);
